@@ -444,6 +444,7 @@ pub fn pass_topdown_validation(rec: &SessionRec, from: usize, sh_at_from: &Shado
       let justified = seq.iter().any(|v| v.at < e && !v.consistent);
       if !justified {
         out.push(f("C02", "unjustified-execution", e, format!("T{} had completed before and was re-executed although none of its recorded dependencies was reported inconsistent by its checker in this session", t)));
+        out.push(f("C09", "executed-without-checker-verdict", e, format!("T{} was re-executed although no checker of its recorded dependencies reported an inconsistency: something other than the dependencies' own checkers decided", t)));
       }
     }
     // validation happens once, before the execution, in declaration order, stopping at the first inconsistency
@@ -565,6 +566,7 @@ pub fn pass_bottom_up(rec: &SessionRec, stats: &mut BuStats) -> Vec<Finding> {
         let ts = &sh.tasks[*task as usize];
         if ts.status == Status::Completed && !justified.contains(task) {
           out.push(f("C04", "unjustified-execution", i, format!("T{} was executed in a bottom-up build although it had completed before and no check reported one of its dependencies inconsistent", task)));
+          out.push(f("C09", "executed-without-checker-verdict", i, format!("T{} was re-executed by a bottom-up build although no checker of its recorded dependencies reported an inconsistency: something other than the dependencies' own checkers decided", task)));
         }
         if depth > 0 && scheduled.contains(task) { stats.nested_now += 1; }
         for y in scheduled.iter() {
